@@ -264,38 +264,7 @@ pub fn arity(name: &'static str) {
     core::mem::forget((r2, r3));
 }
 
-/// duration(i) / duration(s, n): value or error, never a different duration
-pub fn duration_ctor() {
-    let s: i64 = any();
-    // explicit padding: the dispatcher pads missing arguments with null itself, through
-    // `Vec::extend`, which is what makes the one-argument call intractable for the solver
-    let r = construct_type("duration", vec![CelValue::Int(s), CelValue::Null]);
-    let want = chrono::Duration::new(s, 0);
-    witness!(want.is_none(), "out of range seconds");
-    match (&r, want) {
-        (CelValue::Duration(d), Some(w)) => assert!(*d == w, "duration(i) is i seconds"),
-        (CelValue::Err(_), None) => {}
-        _ => assert!(false, "duration(i) is i seconds or an error when not representable"),
-    }
-    core::mem::forget(r);
-}
 
-/// duration(s, n): n outside 0..1e9 or an unrepresentable length is an error, never a
-/// different duration
-pub fn duration_ctor2() {
-    let s: i64 = any();
-    let n: i64 = any();
-    let r = construct_type("duration", vec![CelValue::Int(s), CelValue::Int(n)]);
-    let want = if n >= 0 && n < 1_000_000_000 { chrono::Duration::new(s, n as u32) } else { None };
-    witness!(n > u32::MAX as i64, "nanos above u32");
-    witness!(want.is_some(), "valid pair");
-    match (&r, want) {
-        (CelValue::Duration(d), Some(w)) => assert!(*d == w, "duration(s, n) is s seconds and n nanoseconds"),
-        (CelValue::Err(_), None) => {}
-        _ => assert!(false, "duration(s, n) with n outside 0..1e9 or out of range must be an error"),
-    }
-    core::mem::forget(r);
-}
 
 /// timestamp(int) / timestamp(uint): the instant that many seconds after the epoch, or an
 /// error when it is not representable - never a different instant
@@ -328,4 +297,42 @@ pub fn timestamp_ctor<K: Kind>() {
         _ => assert!(false, "timestamp(uint above the int range) must be an error"),
     }
     core::mem::forget(r);
+}
+
+/// duration(s, n) through the typed overload (the two-argument dispatcher is out of reach):
+/// n outside 0..1e9 or an unrepresentable length is an error, never a different duration
+pub fn duration_inner2() {
+    use rscel::verif_hooks::verif_duration_inner as d;
+    let s: i64 = any();
+    let n: i64 = any();
+    let r = d::secs_nanos(s, n);
+    let want = if n >= 0 && n < 1_000_000_000 { chrono::Duration::new(s, n as u32) } else { None };
+    witness!(n > u32::MAX as i64, "nanos above u32");
+    witness!(want.is_some(), "valid pair");
+    match (r, want) {
+        (Ok(g), Some(w)) => assert!(g == w, "duration(s, n) is s seconds and n nanoseconds"),
+        (Err(e), None) => core::mem::forget(e),
+        (Err(e), Some(_)) => {
+            core::mem::forget(e);
+            assert!(false, "duration(s, n) rejected a representable pair");
+        }
+        (Ok(_), None) => assert!(false, "duration(s, n) with n outside 0..1e9 or out of range must be an error"),
+    }
+}
+
+pub fn duration_inner1() {
+    use rscel::verif_hooks::verif_duration_inner as d;
+    let s: i64 = any();
+    let r = d::secs(s);
+    let want = chrono::Duration::new(s, 0);
+    witness!(want.is_none(), "out of range seconds");
+    match (r, want) {
+        (Ok(g), Some(w)) => assert!(g == w, "duration(i) is i seconds"),
+        (Err(e), None) => core::mem::forget(e),
+        (Err(e), Some(_)) => {
+            core::mem::forget(e);
+            assert!(false, "duration(i) rejected a representable length");
+        }
+        (Ok(_), None) => assert!(false, "duration(i) must be an error when not representable"),
+    }
 }
